@@ -3,7 +3,7 @@
 import json, subprocess, sys, os
 
 ROOT = "/verif"
-hook_commits = ["a3ef33e"]
+hook_commits = ["a3ef33e", "b2fabb3"]
 
 # id -> (technique, level text, level note, design ref)
 CHECKS = {
